@@ -32,6 +32,8 @@ def per_step(w, st):
     before = getattr(w, '_lite', None)
     after = lite(w)
     w._lite = after
+    if st.foreign:
+        return [('changes-another-element', '%s: %s' % (st.op, st.foreign))]
     if st.ok or before is None:
         return []
     if before != after:
